@@ -86,6 +86,9 @@ func genAuthCfg(r *rand.Rand) vfCfg {
 	if chance(r, 0.3) {
 		// a published-keys file that already lists this server's own CA key(s) and/or another keymaster's
 		c.PubKeys = subset(r, []string{"ca_rsa", "ca_rsa_alt", "ca_ed25519"}, 0.5)
+		if containsStr(c.PubKeys, "ca_rsa") && chance(r, 0.7) {
+			c.Ed25519CA = true // several instances sharing one keys file, each with both CAs
+		}
 	}
 	if chance(r, 0.5) {
 		c.CliTokenLife = pick(r, []string{"1h", "30m", "24h"})
@@ -149,6 +152,14 @@ func genAuthPlan(r *rand.Rand, tier, focus string) *vfPlan {
 		sessUser["s1"], sessUser["s2"] = u, u
 		n = 4 + r.IntN(6)
 	}
+	if focus == "C03" && chance(r, 0.12) {
+		// a client certificate obtained earlier is, hours later, the only credential of a new request
+		u := pick(r, vfHonestUsers)
+		add(vfStep{Op: "mintsession", Sess: "cs", User: u, N: int64(AuthTypeU2F | AuthTypePassword)})
+		add(vfStep{Op: "certgen", Sess: "cs", User: u, A: "x509", B: pick(r, []string{"user_p256_1", "user_rsa2048_2"}), D: "24h"})
+		add(vfStep{Op: "advance", D: pick(r, []string{"1h", "12h", "20h", "23h"})})
+		add(vfStep{Op: "certgen", Sess: "s3", User: u, A: pick(r, []string{"ssh", "x509", "x509"}), B: pick(r, vfUserKeyNames), D: pick(r, []string{"", "24h", "8h"}), C: "cert:last:usercert:" + u})
+	}
 	mintShare := 0.25
 	ipcertShare := 2
 	if focus == "C01" {
@@ -158,6 +169,9 @@ func genAuthPlan(r *rand.Rand, tier, focus string) *vfPlan {
 			add(vfStep{Op: "mintsession", Sess: "adm", User: pick(r, []string{"root", "autoadmin"}), N: int64(AuthTypeU2F | AuthTypePassword)})
 			add(vfStep{Op: "rolecert", Sess: "adm", A: pick(r, []string{"auto1", "auto2"}), L: []string{pick(r, vfNetChoices)}, B: pick(r, []string{"user_p256_3", "user_rsa2048_4"})})
 			ipcertShare = 6
+			if !containsStr(p.Cfg.CertBackends, "IPCertificate") && chance(r, 0.7) {
+				p.Cfg.CertBackends = append(p.Cfg.CertBackends, "IPCertificate")
+			}
 		}
 	}
 	anyTok := func() string {
@@ -168,6 +182,9 @@ func genAuthPlan(r *rand.Rand, tier, focus string) *vfPlan {
 	}
 	keyFor := func(typ string) string {
 		k := pick(r, vfUserKeyNames)
+		if p.Cfg.Ed25519CA && (typ == "" || typ == "ssh") && chance(r, 0.3) {
+			k = pick(r, []string{"user_ed25519_1", "user_ed25519_2", "user_ed25519_3"}) // the second CA gets its share of work
+		}
 		return k
 	}
 	durations := []string{"", "", "1h", "24h", "30m", "1s", "0s", "-1h", "100h", "24h0m0.000000001s", "1h30m", "86400s", "1.5h", "9223372036s", "-9223372036s", "10X", "1ns", "0.5s", "23h59m59s", "2562047h", "-2562047h47m16.854775807s", "2562047h47m16.854775807s"}
@@ -276,8 +293,14 @@ func genAuthPlan(r *rand.Rand, tier, focus string) *vfPlan {
 						if chance(r, 0.45) {
 							// the identical assertion delivered again, by the same or another session of the user
 							rs := ps
-							if chance(r, 0.5) {
+							if chance(r, 0.6) {
 								rs = pick(r, vfSessNames)
+								// preferably another session of the same user
+								for _, cand := range vfSessNames {
+									if cand != ps && sessUser[cand] == u && u != "" {
+										rs = cand
+									}
+								}
 							}
 							add(vfStep{Op: "webauthn_finish", Sess: rs, Target: tok, A: "sess:" + ps})
 						}
@@ -336,7 +359,7 @@ func genAuthPlan(r *rand.Rand, tier, focus string) *vfPlan {
 					add(vfStep{Op: "oktapoll", Sess: s})
 				}
 			}
-			if chance(r, 0.1) {
+			if chance(r, 0.16) {
 				// the same request also carries another session's cookie (first in the Cookie header)
 				last := &p.Steps[len(p.Steps)-1]
 				switch last.Op {
@@ -417,6 +440,11 @@ func genAuthPlan(r *rand.Rand, tier, focus string) *vfPlan {
 			// an automation certificate minted by an administrator, later used as a credential
 			add(vfStep{Op: "mintsession", Sess: "adm", User: pick(r, []string{"root", "autoadmin"}), N: int64(AuthTypeU2F | AuthTypePassword)})
 			add(vfStep{Op: "rolecert", Sess: "adm", A: pick(r, []string{"auto1", "auto2"}), L: []string{pick(r, vfNetChoices)}, B: pick(r, []string{"user_p256_3", "user_rsa2048_4"})})
+		case x < 84 && focus == "C03":
+			// automation certificates with every kind of requested duration
+			add(vfStep{Op: "mintsession", Sess: "adm", User: pick(r, []string{"root", "autoadmin"}), N: int64(AuthTypeU2F | AuthTypePassword)})
+			add(vfStep{Op: "rolecert", Sess: "adm", A: pick(r, []string{"auto1", "auto2"}), L: []string{pick(r, vfNetChoices)}, B: pick(r, []string{"user_p256_3", "user_rsa2048_4"}),
+				D: pick(r, []string{"", "24h", "1080h", "1080h0m1s", "1092h", "1103h59m59s", "1104h", "2000h", "-1h", "9223372036s", "0s", "1ns", "10X"})})
 		case x < 90:
 			add(vfStep{Op: "advance", D: pick(r, advances)})
 		case x < 93:
